@@ -3,6 +3,8 @@
 package cl
 
 import (
+	"math/big"
+
 	"github.com/ohler55/slip"
 )
 
@@ -36,23 +38,21 @@ type Lcm struct {
 
 // Call the function with the arguments provided.
 func (f *Lcm) Call(s *slip.Scope, args slip.List, depth int) slip.Object {
-	z := slip.Fixnum(1)
-	for i, a := range args {
+	// The least common multiple of fixnums may not be a fixnum so the
+	// result is built with big integers.
+	z := big.NewInt(1)
+	var g big.Int
+	for _, a := range args {
 		num, ok := a.(slip.Fixnum)
 		if !ok {
 			slip.TypePanic(s, depth, "integers", a, "fixnum")
 		}
-		switch {
-		case num == 0:
+		if num == 0 {
 			return num
-		case num < 0:
-			num = -num
 		}
-		if i == 0 { // first one
-			z = num
-		} else {
-			z = z * num / gcd(z, num)
-		}
+		n := new(big.Int).Abs(big.NewInt(int64(num)))
+		g.GCD(nil, nil, z, n)
+		z.Mul(z.Quo(z, &g), n)
 	}
-	return z
+	return integerObject(z)
 }
